@@ -112,6 +112,17 @@ func (c *Conn) Close() error {
 	return c.conn.Close()
 }
 
+// CloseWrite shuts down the writing side of the wrapped connection, if it
+// supports that, so that its peer observes end-of-stream while the reading side
+// stays usable (a proxy relaying a tunnel uses this to pass on a half-close);
+// a connection that cannot be shut down one way is closed.
+func (c *Conn) CloseWrite() error {
+	if cw, ok := c.conn.(interface{ CloseWrite() error }); ok {
+		return cw.CloseWrite()
+	}
+	return c.Close()
+}
+
 // LocalAddr returns the local network address.
 func (c *Conn) LocalAddr() net.Addr {
 	return c.conn.LocalAddr()
